@@ -429,18 +429,35 @@ theorem lookup_mem {α β} [BEq α] [LawfulBEq α] : ∀ (l : List (α × β)) (
       cases h; subst this; simp
     · simp [ih k v h]
 
-theorem tarGet_val {m : TarMap} {url : Url} {c : Nat} (h : tarGet m url = .ok c) : TarVal m c := by
+theorem firstSome_mem : ∀ (l : List (Option Nat)) (c : Nat), firstSome l = .ok c → some c ∈ l := by
+  intro l
+  induction l with
+  | nil => intro c h; cases h
+  | cons x xs ih =>
+    intro c h
+    cases x with
+    | none => simp only [firstSome] at h; exact List.mem_cons_of_mem _ (ih c h)
+    | some v => simp only [firstSome, Resp.ok.injEq] at h; subst h; simp
+
+theorem tarGet_val {m : TarMap} {url : Url} {acc : Accept} {c : Nat} (h : tarGet m url acc = .ok c) :
+    TarVal m c := by
   unfold tarGet at h
   split at h
   · cases h
   · rename_i e he
     have hm := lookup_mem _ _ _ he
-    split at h
-    · rename_i v hv; cases h; exact ⟨_, e, hm, Or.inl hv⟩
-    · split at h
-      · rename_i v hv; cases h; exact ⟨_, e, hm, Or.inr (Or.inr hv)⟩
-      · split at h
-        · rename_i v hv; cases h; exact ⟨_, e, hm, Or.inr (Or.inl hv)⟩
-        · cases h
+    have hmem := firstSome_mem _ _ h
+    simp only [List.mem_cons, List.not_mem_nil, or_false] at hmem
+    refine ⟨_, e, hm, ?_⟩
+    rcases hmem with h1 | h1 | h1 | h1 | h1
+    · split at h1
+      · exact Or.inr (Or.inr h1.symm)
+      · cases h1
+    · split at h1
+      · exact Or.inr (Or.inl h1.symm)
+      · cases h1
+    · exact Or.inl h1.symm
+    · exact Or.inr (Or.inr h1.symm)
+    · exact Or.inr (Or.inl h1.symm)
 
 end VtModel.Path
